@@ -49,9 +49,9 @@ func (c *chainM) GC(g uint32) {
 	c.Persist()
 	c.mod.GC(g, c.ps)
 }
-func (c *chainM) GCLow(g uint32) { c.mod.GC(g, c.ps) }
+func (c *chainM) GCLow(g uint32)     { c.mod.GC(g, c.ps) }
 func (c *chainM) Upper() (view, int) { return readUpper(c.mod.Store) }
-func (c *chainM) Reset()         {}
+func (c *chainM) Reset()             {}
 func (c *chainM) Persist() {
 	if err := c.bc.VerifPersist(); err != nil {
 		panic(err)
